@@ -93,21 +93,15 @@ func RaceMain(args []string) int {
 		}
 	}
 	w.Rec.Off = true // custom functions must not record under real concurrency
-	base := map[string]Obs{}
-	for _, t := range sc.Tasks {
-		for _, op := range t {
-			op = fix(op)
-			if _, ok := base[opKey(op)]; !ok {
-				base[opKey(op)] = protect(op)
-			}
-		}
-	}
+	// The concurrent phase comes FIRST (nothing but the setup has run in this process, so lazy
+	// initialisation and first-use caches are exercised under concurrency); every distinct
+	// observation is kept, and the sequential baselines are computed afterwards.
 	start := make(chan struct{})
 	var wg sync.WaitGroup
-	var mu sync.Mutex
-	var diverged []string
+	seen := make([]map[string]Obs, len(sc.Tasks))
 	for ti := range sc.Tasks {
 		ti := ti
+		seen[ti] = map[string]Obs{}
 		wg.Add(1)
 		go func() {
 			defer wg.Done()
@@ -116,12 +110,9 @@ func RaceMain(args []string) int {
 				for _, op := range sc.Tasks[ti] {
 					op = fix(op)
 					o := protect(op)
-					if exp := base[opKey(op)]; o.Key() != exp.Key() {
-						mu.Lock()
-						if len(diverged) < 3 {
-							diverged = append(diverged, fmt.Sprintf("DIVERGED task=%d op=%s\n  expected: %s\n  got:      %s", ti, op, exp.Short(), o.Short()))
-						}
-						mu.Unlock()
+					k := opKey(op) + "\x00" + o.Key()
+					if _, ok := seen[ti][k]; !ok && len(seen[ti]) < 64 {
+						seen[ti][k] = o
 					}
 				}
 				if rep%8 == ti%8 {
@@ -132,6 +123,22 @@ func RaceMain(args []string) int {
 	}
 	close(start)
 	wg.Wait()
+	base := map[string]Obs{}
+	var diverged []string
+	for ti, t := range sc.Tasks {
+		for _, op := range t {
+			op = fix(op)
+			if _, ok := base[opKey(op)]; !ok {
+				base[opKey(op)] = protect(op)
+			}
+			exp := base[opKey(op)]
+			for k, o := range seen[ti] {
+				if strings.HasPrefix(k, opKey(op)+"\x00") && o.Key() != exp.Key() && len(diverged) < 3 {
+					diverged = append(diverged, fmt.Sprintf("DIVERGED task=%d op=%s\n  alone:      %s\n  concurrent: %s", ti, op, exp.Short(), o.Short()))
+				}
+			}
+		}
+	}
 	if len(diverged) > 0 {
 		fmt.Fprintln(os.Stderr, strings.Join(diverged, "\n"))
 		return 3
